@@ -28,6 +28,10 @@ def configs(tier):
                         continue  # scikit-learn refuses it: zero output features
                     for kind in ("poly", "poly-slow"):
                         out.append(dict(n=n, degree=d, io=io, bias=bias, kind=kind))
+    # larger batches (a row-blocking or buffering slip only shows beyond some size)
+    for kind in ("poly", "poly-slow"):
+        for io in (False, True):
+            out.append(dict(n=2, degree=2, io=io, bias=True, kind=kind, rows=4100 if tier == "quick" else 9000))
     return out
 
 
@@ -68,21 +72,29 @@ def run_config(cfg):
 
     def h(e):
         est = _make(cfg)
-        est.fit(numpy.zeros((2, n)))  # fit reads the shape only
+        est.fit(numpy.zeros((cfg.get("rows", 2), n)))  # fit reads the shape only
         e.prove(est.n_output_features_ == powers.shape[0], "n_output_features_")
         names = est.get_feature_names_out()
         e.prove(len(names) == powers.shape[0], "names/count")
         for j, nm in enumerate(names[: powers.shape[0]]):
             e.prove(_parse_name(nm, n) == [int(p) for p in powers[j]], f"name")
-        # two calls in a row (history): the second batch must be transformed like the first
+        # two calls in a row (history): the second batch must be transformed like the first, and the array
+        # returned by the first call must still hold the first batch's monomials afterwards (no shared buffer)
+        R = cfg.get("rows", 2)
+        kept = []
         for call in range(2):
-            X = e.reals("x" if call == 0 else "z", 2, n)
+            X = e.reals("x" if call == 0 else "z", R, n)
             out = est.transform(X)
+            kept.append((X, out))
             tag = "" if call == 0 else "/second-call"
-            e.prove(out.shape == (2, powers.shape[0]), "shape" + tag)
-            if out.shape != (2, powers.shape[0]):
+            e.prove(out.shape == (R, powers.shape[0]), "shape" + tag)
+            if out.shape != (R, powers.shape[0]):
                 return
-            for r in range(2):
+        for call, (X, out) in enumerate(kept):
+            tag = "" if call == 0 else "/second-call"
+            if call == 0:
+                tag = "/first-result-after-the-second-call"
+            for r in range(R):
                 for j in range(powers.shape[0]):
                     mono = 1
                     for i in range(n):
@@ -118,19 +130,27 @@ def replay(cfg, inputs, label):
     n = cfg["n"]
     pf, powers = _oracle(cfg)
     est = _make(cfg)
-    X = numpy.zeros((2, n))
-    for r in range(2):
+    R = cfg.get("rows", 2)
+    X = numpy.zeros((R, n))
+    for r in range(R):
         for i in range(n):
-            X[r, i] = float(inputs.get(f"x_{r}_{i}", Fraction(1, 2)))
+            X[r, i] = float(inputs.get(f"x_{r}_{i}", Fraction(1, 2) + r * Fraction(1, 8) + i))
     # make every monomial distinguishable
     if not label.startswith("cell"):
-        X = numpy.array([[2.0 + i for i in range(n)], [3.0 + 2 * i for i in range(n)]])
+        X = numpy.array([[2.0 + i + 0.001 * r for i in range(n)] for r in range(R)])
     try:
         est.fit(X)
         got = est.transform(X)
+        if label.endswith("/first-result-after-the-second-call"):
+            first = got
+            ref_first = pf.transform(X)
+            est.transform(X + 0.5)
+            if not numpy.allclose(first, ref_first, rtol=1e-9, atol=1e-12):
+                return True, dict(history="Y1 = transform(X1); transform(X2); Y1 changed", Y1_now=first.tolist()[:2], expected=ref_first.tolist()[:2])
+            return False, "first result intact"
         if label.endswith("/second-call"):
             Z = X.copy()
-            for r in range(2):
+            for r in range(R):
                 for i in range(n):
                     if f"z_{r}_{i}" in inputs:
                         Z[r, i] = float(inputs[f"z_{r}_{i}"])
@@ -158,7 +178,7 @@ def run(ctx, rep):
     rep.add_functions("mlmodel.extended_features", ["ExtendedFeatures.fit", "ExtendedFeatures.transform", "ExtendedFeatures._transform_poly", "ExtendedFeatures._transform_poly_slow", "ExtendedFeatures.get_feature_names_out", "ExtendedFeatures._get_feature_names_poly"])
     rep.add_functions("mlmodel._extended_features_polynomial", ["_transform_iall", "_transform_ionly", "_combinations_poly"])
     cfgs = configs(ctx.tier)
-    rep.bounds = dict(n_features=f"1..{max(c['n'] for c in cfgs)}", degree=f"0..{max(c['degree'] for c in cfgs)}", rows=2, flags="all", kinds=["poly", "poly-slow"])
+    rep.bounds = dict(n_features=f"1..{max(c['n'] for c in cfgs)}", degree=f"0..{max(c['degree'] for c in cfgs)}", rows="2 for every configuration; 4100 (quick) / 9000 (thorough) for n=2, degree=2", flags="all", kinds=["poly", "poly-slow"])
     rep.assumptions = [
         "reals, not floats: the identity is polynomial identity over R; the association order of float products is outside the claim",
         "oracle: sklearn.preprocessing.PolynomialFeatures(...).powers_ (trusted, cross-checked against its transform on one concrete matrix per configuration)",
